@@ -265,7 +265,7 @@ def simple_body(fnode):
     return params, defaults, ret
 
 
-def inline_calls(e, R, mod, depth=3, class_q=None):
+def inline_calls(e, R, mod, depth=3, class_q=None, scope=None):
     """replace calls to straight-line repository helpers (module-level functions, and `self.m()` methods /
     `self.p` properties of class_q) by their return expression"""
     if depth <= 0:
@@ -306,11 +306,16 @@ def inline_calls(e, R, mod, depth=3, class_q=None):
                             binding[p] = defaults[p]
                         else:
                             return n
-                return inline_calls(inline(ret, binding, depth=1), R, f.mod, depth - 1, class_q)
+                return inline_calls(inline(ret, binding, depth=1), R, f.mod, depth - 1, class_q, scope)
             if not isinstance(n.func, ast.Name):
                 return n
             q = R.chase(mod, n.func.id)
             f = R.funcs.get(q) if q else None
+            if f is None and scope is not None:
+                for x in ast.walk(scope):        # a closure defined inside the analysed function
+                    if isinstance(x, ast.FunctionDef) and x.name == n.func.id and x is not scope:
+                        from .repo import Func
+                        f = Func(mod, None, x, "")
             if f is None or f.cls is not None:
                 return n
             sb = simple_body(f.node)
@@ -331,6 +336,186 @@ def inline_calls(e, R, mod, depth=3, class_q=None):
                     else:
                         return n
             out = inline(ret, binding, depth=1)
-            return inline_calls(out, R, f.mod, depth - 1, class_q)
+            return inline_calls(out, R, f.mod, depth - 1, class_q, scope)
 
     return Inl().visit(copy.deepcopy(e))
+
+
+# --------------------------------------------------------------------------- guards, also through helpers
+def resolve_helper(R, f, call):
+    """repository function called by `call` inside Func f: module function by name, nested def, self./cls./Class. method"""
+    from .repo import Func
+    fn = call.func
+    if isinstance(fn, ast.Name):
+        q = R.chase(f.mod, fn.id)
+        if q in R.funcs and R.funcs[q].cls is None:
+            return R.funcs[q], 0
+        for n in ast.walk(f.node):
+            if isinstance(n, ast.FunctionDef) and n.name == fn.id and n is not f.node:
+                return Func(f.mod, None, n, f.path), 0
+        return None, 0
+    if isinstance(fn, ast.Attribute) and isinstance(fn.value, ast.Name):
+        base = fn.value.id
+        cq = None
+        if base in ("self", "cls") and f.cls:
+            cq = f"{f.mod}.{f.cls}"
+        else:
+            c = R.chase(f.mod, base)
+            if c in R.classes:
+                cq = c
+        if cq:
+            q = R.lookup_method(cq, fn.attr)
+            if q in R.funcs:
+                h = R.funcs[q]
+                skip = 0 if h.is_static else 1
+                return h, skip
+    return None, 0
+
+
+def bind_args(h, skip, call):
+    """{param: arg expr} for a call of helper h (skip = number of implicit leading params)"""
+    a = h.node.args
+    params = [p.arg for p in a.posonlyargs + a.args][skip:]
+    defaults = dict(zip([p.arg for p in a.posonlyargs + a.args][len(a.posonlyargs + a.args) - len(a.defaults):], a.defaults))
+    for p, d in zip(a.kwonlyargs, a.kw_defaults):
+        params.append(p.arg)
+        if d is not None:
+            defaults[p.arg] = d
+    if any(isinstance(x, ast.Starred) for x in call.args) or any(k.arg is None for k in call.keywords):
+        return None
+    b = dict(zip(params, call.args))
+    for k in call.keywords:
+        b[k.arg] = k.value
+    for p in params:
+        if p not in b:
+            if p in defaults:
+                b[p] = defaults[p]
+            else:
+                return None
+    return b
+
+
+def path_conditions(par, node, stop=None):
+    """[(test expr, polarity)] of the if-statements enclosing `node` (elif chains contribute their negated predecessors
+    because an elif is nested in the else-arm of its predecessor)"""
+    out = []
+    n = node
+    while n in par and par[n] is not stop:
+        p = par[n]
+        if isinstance(p, ast.If):
+            if any(n is b for b in p.body):
+                out.append((p.test, True))
+            elif any(n is b for b in p.orelse):
+                out.append((p.test, False))
+        n = p
+    return out
+
+
+def in_loop(par, node, stop=None):
+    n = node
+    while n in par and par[n] is not stop:
+        n = par[n]
+        if isinstance(n, (ast.For, ast.While, ast.AsyncFor)):
+            return True
+    return False
+
+
+def raise_guards(R, f, N, through_helpers=True):
+    """refusals visible in function f: [(frozenset of normalised conditions, anchor statement in f, description)].
+    Direct `raise` statements contribute the conjunction of their enclosing if-tests; a statement-level call of a
+    repository helper whose body raises (outside loops) contributes the helper's conditions with the call's arguments
+    substituted for its parameters, anchored at the call statement."""
+    out = []
+    par = enclosing_map(f.node)
+    env = single_defs(f.node)
+
+    def conj(conds, binding=None, henv=None):
+        items = set()
+        for t, pol in conds:
+            e = t
+            if henv:
+                e = inline(e, henv)
+            if binding:
+                e = inline(e, binding, depth=1)
+            b = N.b(inline(e, env), neg=not pol)
+            if b[0] == "and":
+                items |= set(b[1])
+            else:
+                items.add(b)
+        return frozenset(items)
+
+    for n in walk_own(f.node):
+        if isinstance(n, ast.Raise):
+            conds = path_conditions(par, n)
+            if not conds:
+                continue
+            # anchor: the outermost enclosing If
+            a = n
+            top = None
+            while a in par:
+                a = par[a]
+                if isinstance(a, ast.If):
+                    top = a
+            out.append((conj(conds), top, "direct", in_loop(par, n)))
+    if through_helpers:
+        for st in walk_own(f.node):
+            call = None
+            if isinstance(st, ast.Expr) and isinstance(st.value, ast.Call):
+                call = st.value
+            elif isinstance(st, ast.Assign) and isinstance(st.value, ast.Call):
+                call = st.value
+            if call is None:
+                continue
+            h, skip = resolve_helper(R, f, call)
+            if h is None or h.node is f.node:
+                continue
+            binding = bind_args(h, skip, call)
+            if binding is None:
+                continue
+            hpar = enclosing_map(h.node)
+            henv = single_defs(h.node)
+            for n in walk_own(h.node):
+                if isinstance(n, ast.Raise) and not in_loop(hpar, n):
+                    conds = path_conditions(hpar, n)
+                    if conds:
+                        out.append((conj(conds, binding, henv), st, f"via {h.site()}", in_loop(par, st)))
+    return out
+
+
+# --------------------------------------------------------------------------- per-path return expressions
+def path_returns(fnode, max_paths=64):
+    """[(conditions [(test, polarity)], return expression with the path's local single assignments inlined)] for a
+    function whose body is assignments / if-elif-else / returns / raises (no loops, no try).  None if outside that fragment."""
+    out = []
+
+    def run(stmts, conds, env):
+        for i, st in enumerate(stmts):
+            if isinstance(st, ast.Expr) and isinstance(st.value, ast.Constant):
+                continue
+            if isinstance(st, ast.Assign) and len(st.targets) == 1 and isinstance(st.targets[0], ast.Name):
+                env = dict(env)
+                env[st.targets[0].id] = inline(st.value, env, depth=1)
+                continue
+            if isinstance(st, ast.Return):
+                out.append((list(conds), inline(st.value, env, depth=1) if st.value is not None else None))
+                return True
+            if isinstance(st, ast.Raise):
+                return True
+            if isinstance(st, ast.If):
+                t = inline(st.test, env, depth=1)
+                a = run(st.body + stmts[i + 1:], conds + [(t, True)], env)
+                b = run(st.orelse + stmts[i + 1:], conds + [(t, False)], env)
+                if a is None or b is None:
+                    return None
+                return True
+            if isinstance(st, (ast.Expr, ast.Pass, ast.Assert)):
+                continue
+            return None
+        out.append((list(conds), None))
+        return True
+
+    body = fnode.body
+    ok = run(body, [], {})
+    if ok is None or len(out) > max_paths:
+        return None
+    return out
